@@ -28,6 +28,10 @@ specifying property for ANY optimal answer, so the check cannot raise a false al
     |g(a-b) - (a'-b')| <= rho + rho';
   * EPA: the extent of A-B along the mapped-back direction of mtv' exceeds |mtv'| by at most
     tau + D sqrt(4 tau/|mtv'|).
+Stream "nearid" (all 34 distance functions, weighted towards those taking a 4x4 pose, and collider scenes): the frames of
+both arguments are within 1e-9 .. 1e-5 rad of the identity / of an axis permutation (or exactly so) and the scene is moved by
+(identity | near-identity | axis permutation) + a translation of up to 985, or sits up to 985 from the origin and is moved by an
+arbitrary rotation: an absolute tolerance on a rotation block (a "pure translation" shortcut) shows as angle * |translation|.
 Known findings of the specifying properties are not re-reported: the same input-class
 predicates are evaluated (C11 F8/F10/F11/F22/F23, C10 F20/F21 via harness/props/c11.py,
 c10.py; C07 F2 = gjk left its loop with fewer than 4 simplex points) and the skipped
